@@ -218,7 +218,10 @@ CHECKS = {
     ),
 }
 
-NOT_YET = {}
+NOT_YET = {
+    "C15": "not applicable to solver-based checking within reach: get_area_targets mixes np.interp / make_monotonic epsilon offsets / 6-dp rounding of enthalpies with log of ratios of unknowns (jointly symbolic temperatures and duties inside transcendental functions: NRA+UF queries return unknown); the LMTD clause is decided under C20; see DESIGN.md section 8",
+    "C18": "not applicable: every state point comes from CoolProp's compiled AbstractState; an uninterpreted equation-of-state contract that is both true for every refrigerant and strong enough for the second-law clauses could not be stabilised (impossible-fluid countermodels are not replayable); see DESIGN.md section 8",
+}
 
 
 def main():
